@@ -11,3 +11,16 @@ Theorem c13_admit_iff : forall s src dst dst_ok,
   /\ (server_admit s src dst dst_ok = Refuse \/ server_admit s src dst dst_ok = AdmitTo src).
 Proof. exact admit_spec. Qed.
 Print Assumptions c13_admit_iff.
+
+(* peer side (Layer C), every interleaving: an inbound connection handed to the manager is
+   refused exactly when an inbound FSM exists, the outbound FSM is Established or the peer is held
+   down; a refused connection changes nothing; an admitted one creates the inbound FSM *)
+From Coq Require Import List Bool.
+From Verif Require Import Closure Peer PeerProofs PeerCorollaries.
+Theorem c13_busy : forall p d tr s s',
+  run sys label step (init p d) tr = Some s -> step s LMInConn = Some s' ->
+  let busy := s_hold s || present (snd (s_fsm s)) || st_eqb (fst (s_state s)) Established in
+  s_refused s' = busy /\ (busy = true -> core_eqb s s' = true)
+  /\ (busy = false -> present (snd (s_fsm s')) = true /\ fconn (snd (s_fsm s')) = true).
+Proof. exact refused_connection_inert. Qed.
+Print Assumptions c13_busy.
